@@ -619,6 +619,16 @@ def run(ctx):
         if out != str(val):
             ctx.violation({"default": expr, "rendered": out, "expected": str(val)}, "an argument default re-emitted from its parsed form evaluates to a different value", tags=["c19.expr.default"])
 
+    # page arguments and filter arguments are re-emitted the same way
+    for src, want in [('<%page args="a=(1, 2)[0] + 3, b={\'k\': [1, 2]}[\'k\'][1]"/>${a}${b}', "42"), ("${'z' | pad(-(1 - 3), 'ab'[1:])}", "zzb"),
+                      ('<%def name="f()" filter="pad(1 + 1, \'x\' * 2)">y</%def>${f()}', "yyxx"), ('<%page args="t=(not (1 > 2)) and \'y\' or \'n\'"/>${t}', "y")]:
+        ctx.evaluations += 1
+        try:
+            out = Template(src).render(pad=lambda n, s: (lambda v: v * n + s))
+        except Exception as e:  # noqa
+            out = "raised %s: %s" % (type(e).__name__, str(e)[:80])
+        if out != want:
+            ctx.violation({"template": src, "rendered": out, "expected": want}, "a page argument default / filter argument re-emitted from its parsed form evaluates differently", tags=["c19.expr.page-filter-args"])
     for d in disagreements[:6]:
         ctx.sample({"disagreement": d[0], "input": d[1], "model": d[2], "impl": d[3]})
     if disagreements:
